@@ -270,6 +270,66 @@ fn run(ctx: &mut Ctx) {
         }
         ctx.count_n("two- and three-word streams of boundary words", 7 * 256 * 7);
     });
+    // ---- inputs of 1 MiB and more (a size at which an implementation may switch strategy), ending in a complete block,
+    // a partial block, an entry, a partial word, an invalid word; and words with a channel number beyond the last
+    // (top byte 0xBB..=0xFD) placed inside runs of 4 000..70 000 consecutive entries
+    ctx.cases("megabyte", ctx.tier.pick(10, 40), |ctx, i, rng| {
+        let mut st: Vec<u8> = Vec::new();
+        let target = if i % 2 == 0 { (1usize << 20) + rng.usize(5000) } else { 300_000 + rng.usize(900_000) };
+        while st.len() < target {
+            match rng.below(40) {
+                0 => st.extend(scaler_block(rng)),
+                1 => st.extend(marker_word(rng.next() as u32)),
+                _ => {
+                    for _ in 0..rng.usize(2000) {
+                        st.extend(ts_word(rng.below(59) as u8, rng.bool(), rng.next()));
+                    }
+                }
+            }
+        }
+        match i % 5 {
+            0 => st.extend(scaler_block(rng)),
+            1 => {
+                let b = scaler_block(rng);
+                st.extend(&b[..4 + rng.usize(240)]);
+            }
+            2 => st.extend(ts_word(3, true, 77)),
+            3 => st.extend([1u8, 2]),
+            _ => st.extend([1u8, 2, 3, 0x80 | 60]),
+        }
+        let Some((got, consumed)) = lib_parse(ctx, &st) else { return };
+        let (exp, ec) = ref_parse(&st);
+        if got != exp || consumed != ec {
+            ctx.violation("entries or consumed length differ from the reference parser", format!("{} byte stream (ending kind {}): consumed {} vs {}, entries {} vs {}", st.len(), i % 5, consumed, ec, got.len(), exp.len()), json!({"len": st.len(), "tail": hex(&st[st.len() - 260..])}));
+            return;
+        }
+        ctx.count("streams of 0.3 .. 1.2 MB parsed identically to the reference");
+    });
+    ctx.cases("bad-word-in-long-run", ctx.tier.pick(12, 60), |ctx, i, rng| {
+        let n = [4000usize, 4095, 4096, 4097, 5000, 65_535, 65_536, 70_000][(i % 8) as usize];
+        let at = [n / 2, n - 1, 1, n - 10][((i / 8) % 4) as usize];
+        let mut st: Vec<u8> = Vec::new();
+        if i % 3 == 0 {
+            st.extend(scaler_block(rng));
+        }
+        for k in 0..n {
+            if k == at {
+                st.extend([rng.next() as u8, rng.next() as u8, rng.next() as u8, 0xBB + rng.below(0x43) as u8]);
+            }
+            if k % 997 == 5 {
+                st.extend(marker_word(rng.next() as u32));
+            } else {
+                st.extend(ts_word(rng.below(59) as u8, rng.bool(), rng.next()));
+            }
+        }
+        let Some((got, consumed)) = lib_parse(ctx, &st) else { return };
+        let (exp, ec) = ref_parse(&st);
+        if got != exp || consumed != ec {
+            ctx.violation("entries or consumed length differ from the reference parser", format!("run of {} entries with an invalid-channel word at entry {}: consumed {} vs {}, entries {} vs {}", n, at, consumed, ec, got.len(), exp.len()), json!({"n": n, "at": at}));
+            return;
+        }
+        ctx.count("long runs with an invalid-channel word inside parsed identically");
+    });
     // ---- words made from the integer literals of the library sources (and their variants with each entry-type top
     // byte), between two timestamps, after a scaler block and alone: no particular word is special
     let dict = super::source_dictionary("detector/src");
